@@ -137,6 +137,21 @@ def feasible(body, path):
             continue
         if view is None:
             view = body_on_path(body, path)
+        mb = body.materialised_bool(a)
+        if mb is not None:
+            # the value is whatever was assigned last on this path
+            last = None
+            for pb in path[:path.index(a) + 1]:
+                if pb in mb[1][True]:
+                    last = True
+                if pb in mb[1][False]:
+                    last = False
+            if last is not None:
+                labs = [l for l, tg in body.edges(a) if tg == b]
+                takes_true = "otherwise" in labs or any(l != "otherwise" and l[1] != 0 for l in labs)
+                if takes_true != last:
+                    return False
+            continue
         c = strip(view.resolve_operand(t["discr"]))
         if c[0] != "discr":
             continue
